@@ -79,7 +79,7 @@ fn exact_pair(a: CQ, b: CQ) -> Result<(), String> {
 
 // --- f64 ---------------------------------------------------------------------------------------------
 fn fcomp() -> Vec<f64> {
-    vec![0.0, 1.0, -1.0, 3.0, 1.0 / 3.0, -7.5, 1e-100, -1e-100, 1e100, -1e100]
+    vec![0.0, -0.0, 1.0, -1.0, 3.0, 1.0 / 3.0, -7.5, 1e-100, -1e-100, 1e100, -1e100]
 }
 const ULP_BOUND: f64 = 8.0 * f64::EPSILON;
 
@@ -285,7 +285,7 @@ impl Sut for St {
 fn main() {
     let ctx = Ctx::from_args("C13");
     ctx.level("model_checking");
-    ctx.rule("E1: all 1296 ordered pairs of Complex<Rat> with components in {0,1,-1,2,1/2,-3/2}: + - * / neg conj abs_sqr, the mixed real forms and every compound assignment against independently coded field formulae (exact); identities; equality and lexicographic order (trichotomy; transitivity on all triples of 25 values). Complex<f64>: all 10^4 pairs with components in {0,+-1,3,1/3,-7.5,+-1e-100,+-1e100}: double-double reference, normwise error <= 8 eps, every compound / mixed form bit-identical to its binary form. E2: BFS over sequences of compound assignments (complex and real operands), negation and conjugation on one Complex<Rat>. Non-trivial: pairs with all four components non-zero, purely real/imaginary operands, in-place multiply/divide.");
+    ctx.rule("E1: all 1296 ordered pairs of Complex<Rat> with components in {0,1,-1,2,1/2,-3/2}: + - * / neg conj abs_sqr, the mixed real forms and every compound assignment against independently coded field formulae (exact); identities; equality and lexicographic order (trichotomy; transitivity on all triples of 25 values). Complex<f64>: all 11^4 pairs with components in {0,-0,+-1,3,1/3,-7.5,+-1e-100,+-1e100}: double-double reference, normwise error <= 8 eps, every compound / mixed form bit-identical to its binary form. E2: BFS over sequences of compound assignments (complex and real operands), negation and conjugation on one Complex<Rat>. Non-trivial: pairs with all four components non-zero, purely real/imaginary operands, in-place multiply/divide.");
     ctx.assume("f64 components stay inside 1e-100..1e100 so that no intermediate overflows or underflows");
     for n in ["f64_add_normwise_error", "f64_sub_normwise_error", "f64_mul_normwise_error", "f64_div_normwise_error"] {
         ctx.threshold(n, ULP_BOUND);
@@ -313,7 +313,7 @@ fn main() {
     let fv: Vec<Cmplx> = fc.iter().flat_map(|a| fc.iter().map(move |b| Cmplx::new(*a, *b))).collect();
     let nf = fv.len() as u64;
     ctx.lattice(
-        "Complex<f64>: all ordered pairs with components over {0,+-1,3,1/3,-7.5,+-1e-100,+-1e100}",
+        "Complex<f64>: all ordered pairs with components over {0,-0,+-1,3,1/3,-7.5,+-1e-100,+-1e100}",
         nf * nf,
         |idx| format!("a={:?} b={:?}", fv[(idx / nf) as usize], fv[(idx % nf) as usize]),
         |idx, acc| {
